@@ -132,6 +132,8 @@ class Kernel:
         self.c, self.t = c, target
         self.name, self.iface = c["sampler"], c["interface"]
         self.dist = target.build()
+        if self.name == "PCN" and self.iface == "legacy" and c.get("ptuple"):
+            self.dist = (self.dist.likelihood, self.dist.prior)
         E, L = cuqi.experimental.mcmc, cuqi.sampler
         self.cls = {"MH": (E.MH, L.MH), "CWMH": (E.CWMH, L.CWMH), "PCN": (E.PCN, L.pCN), "MALA": (E.MALA, L.MALA)}[self.name][0 if self.iface == "experimental" else 1]
 
@@ -206,7 +208,7 @@ def mh_cases(draw, tier="quick", samplers=("MH", "PCN", "MALA")):
          "ta": draw(gen.vec(n, -1, 1)), "tG": draw(gen.mat(n, n, -0.7, 0.7)), "tq": draw(st.sampled_from([0.0, 0.05, 0.3])),
          "x": draw(gen.vec(n, -1.5, 1.5)), "xi": draw(gen.vec(n, -2, 2)),
          "scale": draw(st.sampled_from([0.05, 0.2, 0.5, 0.9])) if sampler != "MALA" else draw(st.sampled_from([0.01, 0.05, 0.2])),
-         "history": draw(st.sampled_from(["fresh", "fresh", "warmup", "reload"])), "hseed": draw(st.integers(0, 10 ** 6)),
+         "history": draw(st.sampled_from(["fresh", "fresh", "warmup", "reload", "rescaled"])), "hseed": draw(st.integers(0, 10 ** 6)),
          "u_mode": draw(st.sampled_from(["above", "below", "generated"])), "delta": draw(st.sampled_from([1e-9, 1e-6, 1e-3, 1e-1])),
          "u": draw(st.floats(1e-6, 1 - 1e-6)), "bad_value": draw(st.sampled_from(["nan", "-inf"]))}
     if sampler == "PCN":
@@ -215,7 +217,9 @@ def mh_cases(draw, tier="quick", samplers=("MH", "PCN", "MALA")):
                  pdata=draw(gen.vec(4, -2, 2)), pnvar=draw(gen.logpos(-1, 0.5)),
                  pprior=draw(st.sampled_from(["gauss_scalar", "gauss_vector", "gauss_matrix", "normal"])),
                  pmean_kind=draw(st.sampled_from(["zero", "zero", "vector"])), pmean=draw(gen.vec(5, -1, 1)),
-                 pvar=draw(st.lists(gen.logpos(-0.7, 0.5), min_size=5, max_size=5)), pG=draw(gen.mat(5, 5, -0.4, 0.4)))
+                 pvar=draw(st.lists(gen.logpos(-0.7, 0.5), min_size=5, max_size=5)), pG=draw(gen.mat(5, 5, -0.4, 0.4)),
+                 # the legacy pCN also takes its target as a (likelihood, prior) tuple
+                 ptuple=draw(st.booleans()))
     return c
 
 
@@ -230,6 +234,19 @@ def prepare_subject(K, c, x):
         return K.fresh(x, scale), np.array(x, dtype=float), scale
     np.random.seed(c["hseed"])
     try:
+        if c["history"] == "rescaled":
+            # a sampler that has already made transitions with another scale and is then given the scale through its public attribute
+            other = copy.deepcopy(scale)
+            other = other * 0.5
+            s = K.fresh(x, other)
+            if K.iface == "experimental":
+                s.sample(4)
+                xs = np.asarray(s.current_point, dtype=float).copy()
+            else:
+                S = s.sample(5)
+                xs = np.asarray(S.samples, dtype=float)[:, -1].copy()
+            s.scale = copy.deepcopy(scale)
+            return s, xs, copy.deepcopy(scale)
         if K.iface == "experimental":
             s = K.fresh(x, scale)
             s.warmup(25, tune_freq=0.2)
@@ -251,6 +268,7 @@ def tags_of(c):
     t = {"sampler": c["sampler"], "interface": c["interface"], "history": c["history"]}
     if c["sampler"] == "PCN":
         t["prior_mean"] = c["pmean_kind"]
+        t["target_form"] = "tuple" if (c["interface"] == "legacy" and c.get("ptuple")) else "posterior"
     return t
 
 
